@@ -28,7 +28,7 @@ sys.path.insert(0, HERE)
 from run import run_check  # noqa: E402
 
 REPO = '/repo'
-BASE = '/tmp/mutgen'
+BASE = os.environ.get('MUTGEN_BASE', '/tmp/mutgen')
 PY_FILES = ['optree/ops.py', 'optree/registry.py', 'optree/accessor.py', 'optree/dataclasses.py',
             'optree/functools.py', 'optree/utils.py', 'optree/typing.py',
             'optree/integration/numpy.py', 'optree/integration/torch.py', 'optree/integration/jax.py']
